@@ -214,6 +214,136 @@ def avl_single_steps(rng, bits, lay, max_nodes, prefix_id, per_shape_variants=1,
                     cid += 1
     return out
 
+def fib_shape(h, lean):
+    """the sparsest AVL shape with h levels; lean: 'L', 'R' or 'A' (alternating)"""
+    if h <= 0:
+        return None
+    if h == 1:
+        return (None, None)
+    nxt = {'L': 'L', 'R': 'R', 'A': 'B', 'B': 'A'}[lean]
+    big, small = fib_shape(h - 1, nxt), fib_shape(h - 2, nxt)
+    return (big, small) if lean in ('L', 'A') else (small, big)
+
+def shape_count(s):
+    return 0 if s is None else 1 + shape_count(s[0]) + shape_count(s[1])
+
+def shape_depths(s, d=1, pos=None, out=None):
+    """in-order list of node depths"""
+    if out is None:
+        out = []
+    if s is None:
+        return out
+    shape_depths(s[0], d + 1, None, out)
+    out.append(d)
+    shape_depths(s[1], d + 1, None, out)
+    return out
+
+def avl_sparse_steps(rng, bits, lay, heights, prefix_id, per=10):
+    """single operations on the sparsest (Fibonacci) trees: insertions below the deepest
+    leaves and at the extremes, removals on the shallow side (cascading rotations)"""
+    out = []
+    cid = 0
+    for h in heights:
+        for lean in ('L', 'R', 'A'):
+            shape = fib_shape(h, lean)
+            n = shape_count(shape)
+            if bits == 8 and n + 2 > 254:
+                continue
+            depths = shape_depths(shape)
+            raw, nn, cap = avl_state_bytes(rng, bits, lay, shape, rng.choice([0, 1]), 2)
+            hdr = {'bits': bits, 'lay': lay, 'raw': raw.hex(), 'mode': 'persistent'}
+            deep = [i for i, d in enumerate(depths) if d == h]
+            shallow = sorted(range(n), key=lambda i: depths[i])[-1:] + [i for i, d in enumerate(depths) if d <= h - h // 2 and d >= 2]
+            leaves_shallow = sorted(range(n), key=lambda i: (depths[i], rng.random()))
+            picks_ins = set([1, 2 * n + 1])
+            for i in deep[:per]:
+                picks_ins.add(2 * (i + 1) - 1); picks_ins.add(2 * (i + 1) + 1)
+            for _ in range(per):
+                picks_ins.add(2 * rng.randrange(n + 1) + 1)
+            picks_rem = set(2 * (i + 1) for i in rng.sample(range(n), min(per, n)))
+            # minimal-depth leaves: removing them shrinks the short side
+            mind = min(d for i, d in enumerate(depths) if True)
+            cand = [i for i, d in enumerate(depths) if d <= (h + 1) // 2 + 1]
+            for i in rng.sample(cand, min(per, len(cand))):
+                picks_rem.add(2 * (i + 1))
+            picks_rem.add(2); picks_rem.add(2 * n)
+            ops_list = ['ins %d 7' % k for k in sorted(picks_ins)] + ['rem %d' % k for k in sorted(picks_rem)]
+            for op in ops_list:
+                out.append(Case('%s%d' % (prefix_id, cid), 'avl', hdr, [op, 'fill 100001'], {'stream': 'S', 'n': n}))
+                cid += 1
+            # a longer walk from the sparse tree: keep removing / inserting
+            walk = []
+            ks = list(range(1, n + 1)); rng.shuffle(ks)
+            for k in ks[:min(40, n)]:
+                walk.append('rem %d' % (2 * k))
+            for k in ks[:min(20, n)]:
+                walk.append('ins %d 3' % (2 * k + 1))
+            out.append(Case('%s%d' % (prefix_id, cid), 'avl', hdr, walk + ['fill 100001'], {'stream': 'S', 'n': n}))
+            cid += 1
+    return out
+
+def avl_reject_then_remove(rng, cid, bits=None, lay=None, mode='persistent'):
+    """a refused insert (duplicate or full) immediately followed by the removal of a node
+    on or near its search path: exposes state a handle keeps between calls"""
+    bits = bits or rng.choice([32, 8])
+    lay = lay or rng.choice(['u64u64', 'u32u32', 'u16u32', 'i64u16'])
+    n = rng.randint(5, 14)
+    cap = n + rng.choice([0, 0, 1, 3])
+    keys = list(range(1, 3 * n, 1))
+    rng.shuffle(keys)
+    present = keys[:n]
+    ops = ['ins %d %d' % (k, k % 97) for k in present]
+    pres = set(present)
+    for _ in range(rng.randint(4, 10)):
+        if not pres:
+            break
+        if len(pres) >= cap and rng.random() < 0.5:
+            ops.append('ins %d 1' % rng.choice([k for k in keys if k not in pres]))   # refused: full
+        else:
+            ops.append('ins %d 2' % rng.choice(sorted(pres)))                           # refused: duplicate
+        victim = rng.choice(sorted(pres))
+        ops.append('rem %d' % victim)
+        pres.discard(victim)
+        if rng.random() < 0.4:
+            k = rng.choice([k for k in keys if k not in pres])
+            ops.append('ins %d 3' % k); pres.add(k)
+        if rng.random() < 0.3:
+            ops.append(rng.choice(['len', 'low', 'get %d' % rng.choice(keys)]))
+    return Case(cid, 'avl', {'bits': bits, 'lay': lay, 'cap': cap, 'nrec': cap, 'mode': mode}, ops, {'stream': 'R'})
+
+def avl_cap255_case(rng, cid, lay=None, mode='persistent', rounds=4):
+    """the 8-bit tree at the largest capacity it can be initialised with: fill completely (the
+    bump cursor wraps), then rounds of removals that end with / start with the key living in the
+    last slot handed out, and re-insertions"""
+    lay = lay or rng.choice(['u64u64', 'u16u32', 'i64u16', 'u32u32'])
+    keys = list(range(1, 400))
+    rng.shuffle(keys)
+    live = keys[:255]
+    spare = keys[255:]
+    ops = ['ins %d %d' % (k, k % 200) for k in live] + ['ins %d 0' % spare[0], 'full', 'len']
+    last_slot_key = live[-1]
+    pres = list(live)
+    for r in range(rounds):
+        if rng.random() < 0.3:
+            ops.append('openmut')
+        m = rng.randint(1, 6)
+        victims = rng.sample([k for k in pres if k != last_slot_key], min(m, len(pres) - 1))
+        if last_slot_key in pres and rng.random() < 0.8:
+            pos = rng.choice([0, len(victims), len(victims)])
+            victims.insert(pos, last_slot_key)
+        for v in victims:
+            ops.append('rem %d' % v); pres.remove(v)
+        ops.append('fill 100000')
+        newk = [spare.pop() for _ in range(len(victims) + 1)]
+        for k in newk:
+            ops.append('ins %d 9' % k)
+            if len(pres) < 255:
+                pres.append(k)
+        last_slot_key = pres[-1] if rng.random() < 0.5 else last_slot_key
+        ops += ['full', 'len', 'get %d' % rng.choice(pres)]
+    ops += ['fill 100000']
+    return Case(cid, 'avl', {'bits': 8, 'lay': lay, 'cap': 255, 'nrec': 255, 'mode': mode}, ops, {'stream': 'E255'})
+
 # ------------------------------------------------------------------ hash set
 def hash_history(rng, cid, vty=None, cap=None, length=None, mode='persistent', fills=True):
     vty = vty or rng.choice(['weak1', 'weak2', 'weak3', 'u64', 'u64', 'u32', 'u8'])
@@ -252,6 +382,24 @@ def hash_history(rng, cid, vty=None, cap=None, length=None, mode='persistent', f
     ops.append('iter')
     hdr = {'vty': vty, 'cap': cap, 'nrec': cap, 'mode': mode}
     return Case(cid, 'hash', hdr, ops, {'stream': 'H'})
+
+def hash_pair_history(rng, cid, mode='persistent'):
+    """values whose equality/hash ignore a payload: value = key + (payload << 32)"""
+    cap = rng.choice([2, 3, 4, 6, 8])
+    keys = [rng.randint(1, 50) for _ in range(cap + 2)]
+    ops = []
+    for _ in range(rng.randint(8, 30)):
+        k = rng.choice(keys); pay = rng.randint(0, 5)
+        x = rng.random()
+        if x < 0.55:
+            ops.append('ins %d' % (k + (pay << 32)))
+        elif x < 0.8:
+            ops.append('rem %d' % (k + (pay << 32)))
+        elif x < 0.9:
+            ops.append('has %d' % (k + (pay << 32)))
+        else:
+            ops.append(rng.choice(['size', 'iter', 'full']))
+    return Case(cid, 'hash', {'vty': 'hpair', 'cap': cap, 'nrec': cap, 'mode': mode}, ops, {'stream': 'P', 'impl_only': True})
 
 def hash_exhaustive(vty, cap, m, L, prefix_id):
     vals = list(range(1, m + 1))
@@ -310,6 +458,38 @@ def arr_history(rng, cid, p=None, vty=None, slots=None, length=None, mode='persi
     ops.append('deref')
     hdr = {'p': p, 'vty': vty, 'slots': slots, 'mode': mode}
     return Case(cid, 'arr', hdr, ops, {'stream': 'H'})
+
+def arr_wide_case(rng, cid, mode='persistent'):
+    """a one- or two-byte prefix in front of wide values and more slots than a byte count of the
+    value area would allow"""
+    p = rng.choice([1, 1, 2])
+    vty = rng.choice(['u32', 'u64', 'pair'])
+    slots = rng.randint(28, 70)
+    keys = list(range(1, 4 * slots))
+    rng.shuffle(keys)
+    def cell(k):
+        return '%d %d' % (k, rng.randint(0, 9) if vty == 'pair' else 0)
+    ops = []
+    n1 = rng.randint(slots - 3, slots + 2)
+    ops += ['ins %s' % cell(k) for k in keys[:n1]] + ['len', 'full']
+    ops += ['ext %d' % rng.choice([1, 4, 8])]
+    ops += ['ins %s' % cell(k) for k in keys[n1:n1 + 12]] + ['len', 'full', 'deref']
+    ops += ['take %s' % cell(k) for k in keys[:5]] + ['len', 'full']
+    return Case(cid, 'arr', {'p': p, 'vty': vty, 'slots': slots, 'mode': mode}, ops, {'stream': 'W'})
+
+def arr_big_cases(rng, prefix_id):
+    """one-byte prefix over 254..300 slots: the count reaches the prefix maximum"""
+    out = []
+    i = 0
+    for slots in (254, 255, 256, 300):
+        ks = list(range(0, 256))
+        rng.shuffle(ks)
+        ops = ['ins %d 0' % k for k in ks] + ['len', 'full', 'deref', 'ins 7 0', 'has 7 0', 'take %d 0' % ks[0], 'ins %d 0' % ks[0], 'len', 'full']
+        ops += ['take %d 0' % k for k in ks[:200]] + ['len', 'deref']
+        out.append(Case('%s%d' % (prefix_id, i), 'arr', {'p': 1, 'vty': 'u8', 'slots': slots, 'mode': 'persistent'}, ops, {'stream': 'E'})); i += 1
+    ops = ['ins %d 0' % k for k in range(1, 300)] + ['len', 'full', 'ins 1000 0', 'has 1000 0', 'len']
+    out.append(Case('%s%d' % (prefix_id, i), 'arr', {'p': 1, 'vty': 'u32', 'slots': 300, 'mode': 'persistent'}, ops, {'stream': 'E'})); i += 1
+    return out
 
 def arr_exhaustive(p, vty, slots, m, L, prefix_id):
     vals = list(range(1, m + 1))
@@ -395,6 +575,56 @@ def pstr_validator_cases(p, thorough, prefix_id):
             ops.append('new')
             ops.append('asstr')
         out.append(Case('%s%d' % (prefix_id, ci // chunk), 'pstr', {'p': p, 'size': p + 5}, ops, {'stream': 'B'}))
+    return out
+
+def pstr_trailing_cases(prefix_id):
+    """a recorded length shorter than the buffer, with bytes that are not UTF-8 behind it, and a
+    recorded length that ends inside a character of otherwise valid text"""
+    out = []
+    cid = 0
+    for p in (1, 2):
+        for body, junk in ((b'abc', b'\xff\xfe'), (b'a\xc3\xa9', b'\x80'), (b'', b'\xc3'), (b'xy', b'\xe2\x82')):
+            buf = le(len(body), p) + body + junk
+            ops = ['setbuf %s' % buf.hex(), 'ro', 'new', 'asstr', 'ro']
+            out.append(Case('%s%d' % (prefix_id, cid), 'pstr', {'p': p, 'size': len(buf)}, ops, {'stream': 'B'})); cid += 1
+        for text, cut in (('aé', 2), ('€', 1), ('€', 2), ('\U0001d11e', 3), ('ab€', 3)):
+            b = text.encode()
+            buf = le(cut, p) + b
+            ops = ['setbuf %s' % buf.hex(), 'ro']
+            out.append(Case('%s%d' % (prefix_id, cid), 'pstr', {'p': p, 'size': len(buf)}, ops, {'stream': 'B'})); cid += 1
+    return out
+
+def pstr_oversize_cases(prefix_id, thorough):
+    """buffers larger than the prefix can describe, holding text that is valid as a whole but has
+    a multi-byte character across the largest expressible length"""
+    out = []
+    cid = 0
+    todo = [(1, 255)] + ([(2, 65535)] if True else [])
+    for p, mx in todo:
+        for ch in ('é', '€', '\U0001d11e'):
+            e = ch.encode()
+            for back in range(1, len(e)):
+                body = b'a' * (mx - back) + e + b'bc'
+                init = bytes(p) + body
+                ops = ['new', 'size', 'asstr', 'ro']
+                out.append(Case('%s%d' % (prefix_id, cid), 'pstr', {'p': p, 'size': len(init), 'init': init.hex()}, ops, {'stream': 'B'})); cid += 1
+        body = b'a' * (mx + 3)
+        init = bytes(p) + body
+        out.append(Case('%s%d' % (prefix_id, cid), 'pstr', {'p': p, 'size': len(init), 'init': init.hex()}, ['new', 'size', 'asstr', 'ro'], {'stream': 'B'})); cid += 1
+    return out
+
+def podstr_validator_cases(thorough, prefix_id):
+    """arbitrary bytes placed in a PodStr (copy_from_slice), then as_str / Display"""
+    probes = utf8_probe_strings(False if not thorough else True)
+    out = []
+    chunk = 300
+    for ci in range(0, len(probes), chunk):
+        ops = []
+        for pb in probes[ci:ci + chunk]:
+            ops.append('copysl %s' % hx(b'a' + pb + b'b'))
+            ops.append('asstr')
+            ops.append('disp')
+        out.append(Case('%s%d' % (prefix_id, ci // chunk), 'podstr', {'n': 8}, ops, {'stream': 'B'}))
     return out
 
 def pstr_history(rng, cid, p=None, size=None):
